@@ -54,14 +54,3 @@ def _(self: Ref['mqtt.client.pubsubs.MQTTProtocol'], data: Bytes):
     ensures(self._buffer == rem(old(as_bytes(self._buffer)) + data))
 
 
-
-# proof steps for the framing invariant, stated where the chunk is cut off (smaller queries than one big one at the back edge)
-@ghost_at('mqtt.client.base.MQTTBaseProtocol._accumulatePacket', after='chunk = self._buffer[:length + lenLen + 1]')
-def _():
-    hint(first(as_bytes(self._buffer)) == len(chunk))
-    unfold(frames(as_bytes(self._buffer)))
-    hint(frames(as_bytes(self._buffer)) == lb(chunk) + frames(as_bytes(self._buffer)[len(chunk):]))
-    use(frames_step(old(as_list_bytes(self.g_dispatched)) + frames(old(as_bytes(self._buffer)) + data), as_list_bytes(self.g_dispatched),
-                    frames(as_bytes(self._buffer)), chunk, frames(as_bytes(self._buffer)[len(chunk):])))
-    unfold(rem(as_bytes(self._buffer)))
-    hint(rem(as_bytes(self._buffer)) == rem(as_bytes(self._buffer)[len(chunk):]))
